@@ -414,16 +414,19 @@ def _handle_block(body: list[ast.stmt], ctx: Context) -> sympy.Expr | None:
 
         elif isinstance(node, ast.Import):
             for alias in node.names:
-                name = alias.name
-                ctx.modules[name] = importlib.import_module(name)
+                # import a.b as c binds c
+                ctx.modules[alias.asname or alias.name] = importlib.import_module(
+                    alias.name
+                )
 
         elif isinstance(node, ast.ImportFrom):
             package = cast(str, node.module)
             module = importlib.import_module(package)
             contents = dict(inspect.getmembers(module))
             for alias in node.names:
-                name = alias.name
-                el = contents[name]
+                el = contents[alias.name]
+                # from a import b as c binds c
+                name = alias.asname or alias.name
                 if isinstance(el, float):
                     ctx.symbols[name] = sympy.Float(el)
                 elif callable(el):
